@@ -9,4 +9,6 @@ require (
 	github.com/osanderson/brainpool v1.0.0
 )
 
+require github.com/x448/float16 v0.8.4 // indirect
+
 replace github.com/gmrtd/gmrtd => /repo
